@@ -624,6 +624,9 @@ class Engine:
             vt = parse_type(rec.mutable[fld])
             iv = self.coerce(self.eval_spec_in(st, init, {}), vt)
             st.heap[f'{sort}.{fld}'] = SV(arr.t, self.ctx.store(vt, arr.z, x, iv.z))
+        for cl in rec.ctor_assume:
+            st.assume(self.eval_clause(st, cl if hasattr(cl, 'expr') else Clause(expr=cl), {'result': SV(t, x)}))
+            self.trusted_uses[f'assumed at construction of {sort}: {getattr(cl, "name", "") or cl}'] = self.trusted_uses.get(f'assumed at construction of {sort}: {getattr(cl, "name", "") or cl}', 0) + 1
         return SV(t, x)
 
     # ---------------------------------------------------------------- spec evaluation helpers
@@ -927,14 +930,33 @@ class Evaluator:
             guard = z3.And(guard, v) if isinstance(n.op, ast.And) else z3.And(guard, z3.Not(v))
         return SV(BOOL, z3.And(vals) if isinstance(n.op, ast.And) else z3.Or(vals))
 
+    def _narrowed(self, test, positive, node):
+        """Evaluate `node` in the branch of `X is None` / `X is not None` where the Optional local X is known to hold a
+        value: X is read as that value there (flow-sensitive narrowing; sound because the branch is only selected then)."""
+        nm = None
+        if (isinstance(test, ast.Compare) and len(test.ops) == 1 and isinstance(test.left, ast.Name)
+                and isinstance(test.comparators[0], ast.Constant) and test.comparators[0].value is None
+                and isinstance(test.ops[0], (ast.Is, ast.IsNot))):
+            is_none_branch = isinstance(test.ops[0], ast.Is) == positive
+            if not is_none_branch:
+                nm = test.left.id
+        if nm is None or not self.st.has(nm) or self.st.get(nm).t.k != 'opt':
+            return self.ev(node, self.hint)
+        full = self.st.get(nm)
+        self.st.set(nm, SV(full.t.args[0], full.z['v']))
+        try:
+            return self.ev(node, self.hint)
+        finally:
+            self.st.set(nm, full)
+
     def ev_IfExp(self, n):
         c = self.eng.truth(self.ev(n.test))
         saved = self.may_raise
         self.may_raise = []
-        a = self.ev(n.body, self.hint)
+        a = self._narrowed(n.test, True, n.body)
         ra = self.may_raise
         self.may_raise = []
-        b = self.ev(n.orelse, self.hint)
+        b = self._narrowed(n.test, False, n.orelse)
         rb = self.may_raise
         self.may_raise = saved
         for ok, kind, d in ra:
